@@ -305,4 +305,103 @@ theorem doChecks_count_ne (P : Params) (h : HSt) (v c : Num) (hv : h.value = som
     rw [this, hne]; rfl
   rw [this]; rfl
 
+/-- a non-bucket line of the current group that is not a `_count` / `_gcount` line keeps `count` -/
+theorem histStep_inGroup_count (P : Params) (n : Str) (h h' : HSt) (s : OSample) (g l0 : Labels)
+    (hs : InHistGroup n g h.ts s) (hg : h.group = some l0) (hl0 : sortByKey l0 = sortByKey g)
+    (hrefl : tsEq P h.ts h.ts = true) (hnc : s.name.drop n.length ≠ sCount ∧ s.name.drop n.length ≠ sGcount)
+    (hst : histStep P n h s = .ok h') : h'.count = h.count := by
+  obtain ⟨hcl, hnb, hts, ⟨l, hgl, hle⟩, hgs⟩ := hs
+  rw [histStep_classic P n h s hcl] at hst
+  unfold histStepBody at hst
+  rw [groupForSample_hist n s l hgl] at hst
+  dsimp only at hst
+  by_cases c0 : (s.name.drop n.length).isEmpty = true
+  · rw [if_pos c0] at hst
+    obtain rfl := Except.ok.inj hst
+    rfl
+  · rw [if_neg c0] at hst
+    rw [histReset_same P h l l0 s.ts hg (by rw [hle, hl0]) (by rw [hts]; exact hrefl)] at hst
+    dsimp only at hst
+    have c1 : ¬ (s.name.drop n.length == sBucket) = true := by
+      intro e; exact hnb (by simpa [sBucket] using e)
+    have c2 : ¬ (s.name.drop n.length == sCount || s.name.drop n.length == sGcount) = true := by
+      intro e
+      rcases (Bool.or_eq_true _ _ ▸ e : _ ∨ _) with e1 | e1
+      · exact hnc.1 (by simpa using e1)
+      · exact hnc.2 (by simpa using e1)
+    rw [if_neg c1, if_neg c2] at hst
+    by_cases c3 : (s.name.drop n.length == sSum) = true
+    · rw [if_pos c3] at hst
+      obtain rfl := Except.ok.inj hst
+      rfl
+    · rw [if_neg c3] at hst
+      by_cases c4 : (s.name.drop n.length == sGsum) = true
+      · rw [if_pos c4] at hst
+        cases hc : P.cmpOpt gsumNegCmp s.value (some (.int 0)) with
+        | error e => rw [hc] at hst; cases hst
+        | ok neg =>
+          rw [hc] at hst
+          obtain rfl := Except.ok.inj hst
+          rfl
+      · rw [if_neg c4] at hst
+        obtain rfl := Except.ok.inj hst
+        rfl
+
+/-- non-bucket lines of the current group keep the last bucket's bound and count value in the loop state — and the
+stored `_count` when none of them is a `_count` / `_gcount` line (`keepCount`) -/
+theorem hist_tail_v (P : Params) (n : Str) (g : Labels) (b : Nat) (v : Option Num) (cnt : Option Num) (keepCount : Bool)
+    (tail post : List OSample) :
+    ∀ (h : HSt) (l0 : Labels), h.group = some l0 → sortByKey l0 = sortByKey g → h.bucket = some b → h.value = v →
+      (keepCount = true → h.count = cnt) →
+      tsEq P h.ts h.ts = true → (∀ s ∈ tail, InHistGroup n g h.ts s) →
+      (keepCount = true → ∀ s ∈ tail, s.name.drop n.length ≠ sCount ∧ s.name.drop n.length ≠ sGcount) →
+      (∀ h', h'.bucket = some b → h'.value = v → (keepCount = true → h'.count = cnt) → h'.ts = h.ts →
+        (∃ l, h'.group = some l ∧ sortByKey l = sortByKey g) → isError (histFinish P n h' post) = true) →
+      isError (histFinish P n h (tail ++ post)) = true := by
+  induction tail with
+  | nil => intro h l0 hg hl hb hv hc _ _ _ hk; exact hk h hb hv hc rfl ⟨l0, hg, hl⟩
+  | cons s tail ih =>
+    intro h l0 hg hl hb hv hc hrefl htail hnc hk
+    rw [List.cons_append, histFinish_cons]
+    cases hs : histStep P n h s with
+    | error e => rfl
+    | ok h1 =>
+      dsimp only
+      obtain ⟨e1, e2, e3, l1, e4, e5⟩ := histStep_inGroup P n h h1 s g l0 (htail s (List.mem_cons_self ..)) hg hl hrefl hs
+      refine ih h1 l1 e4 e5 (by rw [e1]; exact hb) (by rw [e2]; exact hv) ?_ (by rw [e3]; exact hrefl)
+        (fun s' hs' => by rw [e3]; exact htail s' (List.mem_cons_of_mem _ hs'))
+        (fun hkc s' hs' => hnc hkc s' (List.mem_cons_of_mem _ hs')) ?_
+      · intro hkc
+        rw [histStep_inGroup_count P n h h1 s g l0 (htail s (List.mem_cons_self ..)) hg hl hrefl (hnc hkc s (List.mem_cons_self ..)) hs]
+        exact hc hkc
+      · intro h' hb' hv' hc' ht' hg'
+        exact hk h' hb' hv' hc' (by rw [ht', e3]) hg'
+
+/-- a `_count` / `_gcount` line of the current group stores its value -/
+theorem histStep_count (P : Params) (n : Str) (h h' : HSt) (s : OSample) (g l0 : Labels)
+    (hs : InHistGroup n g h.ts s) (hg : h.group = some l0) (hl0 : sortByKey l0 = sortByKey g)
+    (hrefl : tsEq P h.ts h.ts = true) (hname : s.name = n ++ cs!"_count" ∨ s.name = n ++ cs!"_gcount")
+    (hst : histStep P n h s = .ok h') : h'.count = s.value := by
+  obtain ⟨hcl, hnb, hts, ⟨l, hgl, hle⟩, _⟩ := hs
+  rw [histStep_classic P n h s hcl] at hst
+  unfold histStepBody at hst
+  rw [groupForSample_hist n s l hgl] at hst
+  dsimp only at hst
+  have hsuf : s.name.drop n.length = sCount ∨ s.name.drop n.length = sGcount := by
+    rcases hname with e | e
+    · left; rw [e]; simp [sCount]
+    · right; rw [e]; simp [sGcount]
+  have c0 : ¬ (s.name.drop n.length).isEmpty = true := by
+    rcases hsuf with e | e <;> rw [e] <;> decide
+  rw [if_neg c0] at hst
+  rw [histReset_same P h l l0 s.ts hg (by rw [hle, hl0]) (by rw [hts]; exact hrefl)] at hst
+  dsimp only at hst
+  have c1 : ¬ (s.name.drop n.length == sBucket) = true := by
+    rcases hsuf with e | e <;> rw [e] <;> decide
+  have c2 : (s.name.drop n.length == sCount || s.name.drop n.length == sGcount) = true := by
+    rcases hsuf with e | e <;> rw [e] <;> decide
+  rw [if_neg c1, if_pos c2] at hst
+  obtain rfl := Except.ok.inj hst
+  rfl
+
 end PromVerif.Lemmas.OM
